@@ -38,6 +38,9 @@ def scripts(d):
         "appe": ["EPSV", "@data", f"APPE /{d}/k", f"@dsend +{d}", "@dclose", "EPSV", "@data", f"RETR /{d}/k"],
         "relogin": [f"CWD /{d}", "USER anonymous", "PWD", f"DELE /{d}/k"],
         "rest-pending": ["REST 3", "EPSV", "@data", f"RETR /{d}/f"],
+        # a user with a connection limit of 2: a mistyped password and a second attempt, and a plain login
+        "retry-login": ["USER bob", "PASS nope", "USER bob", "PASS pw", f"CWD /{d}", "PWD"],
+        "login-bob": ["USER bob", "PASS pw", f"MLST /{d}/k", "PWD"],
     }
 
 
@@ -63,7 +66,10 @@ def run_pair(case, chooser):
     """case: names (na, nb), order = list of 0/1 giving which session moves next, fire = bool (no settle between)"""
     sa, sb = scripts("a")[case["a"]], scripts("b")[case["b"]]
     solo = case.get("solo")     # 'a' / 'b' / None
-    rig = Rig(chooser=chooser, n_sessions=2, tree=tree(), window=case.get("window", 65536),
+    def users(a, base):
+        return [a.User(base_path=base), a.User("bob", "pw", base_path=base, maximum_connections=2)]
+
+    rig = Rig(chooser=chooser, n_sessions=2, tree=tree(), window=case.get("window", 65536), users=users,
               server_kwargs={"block_size": B, "wait_future_timeout": 1},
               backend=case.get("backend", "memory"), delay=case.get("delay", 0.0))
     try:
